@@ -116,12 +116,43 @@ class MonProcess(Process):
                 h(self)
 
     def mon_locals(self):
+        """locals of the process' generator frame and of every sub-generator it currently delegates to (`yield from`):
+        a worker that was split into helper generators keeps its item in the helper's frame"""
+        out = {}
         g = self._generator
-        try:
-            fr = g.gi_frame
-            return fr.f_locals if fr is not None else {}
-        except Exception:
-            return {}
+        if getattr(g, "gi_running", False):
+            # the process is executing right now (a hook fired inside it): its frames are on the Python call stack
+            import sys
+            top = g.gi_frame
+            chain, f = [], sys._getframe(1)
+            while f is not None and len(chain) < 60:
+                chain.append(f)
+                if f is top:
+                    break
+                f = f.f_back
+            if chain and chain[-1] is top:
+                for fr in reversed(chain):
+                    if "factorysimpy" in fr.f_code.co_filename:
+                        try:
+                            out.update(fr.f_locals)
+                        except Exception:
+                            pass
+                return out
+        for _ in range(8):
+            if g is None:
+                break
+            try:
+                fr = g.gi_frame
+                if fr is not None:
+                    out.update(fr.f_locals)
+                if getattr(g, "gi_running", False):
+                    break          # (reading gi_yieldfrom of a *running* generator crashes CPython 3.12.1)
+                g = getattr(g, "gi_yieldfrom", None)
+                if g is not None and not hasattr(g, "gi_frame"):
+                    break
+            except Exception:
+                break
+        return out
 
 
 class MonEnv(simpy.Environment):
